@@ -812,6 +812,13 @@ class Pv(Sub):
                         for fv in p['futs']:
                             for t in (None, 0, 1):
                                 yield [form, r, n, pay, fv, t]
+        # small rates that are dyadic (1 + r is exact, (1+r)^n - 1 cancels) and tiny period counts
+        for r in (2.0 ** -30, 2.0 ** -16, 2.0 ** -10, -2.0 ** -20):
+            for n in (2, 12, 360):
+                for pay, fv, t in ((-100, None, None), (-100, 1000, 1), (0, 1, None)):
+                    yield ['v', r, n, pay, fv, t]
+        for r, n, pay, fv, t in ((1, 0.0001, -100, None, None), (1, 1e-10, -100, None, None), (-0.5, 0.001, -100, 0, 1), (0.05, 0.5, -100, None, None)):
+            yield ['v', r, n, pay, fv, t]
         # growth factors that are exact doubles (1 + r a small dyadic number): where the solution -fv/(1+r)^n is itself a double it is
         # hit to a few units in the last place - a formula that goes through exp(n*log(1+r)) multiplies its rounding by n*ln(1+r)
         for r in (1, -0.5, 3, 0.25, -0.75):
@@ -916,10 +923,13 @@ class Pv(Sub):
             annuity = P * n if R == 0 else P * (1 + R * T) * math.expm1(n * math.log1p(R)) / R
         residual = V * g + annuity + F
         scale = abs(V * g) + abs(annuity) + abs(F)
+        # where the growth factor stays within e^+-50 nothing amplifies the rounding of a sound formula: held to 1e-12 of the terms
+        # (a difference of two numbers close to 1 - (1+r)^n - 1 for a small r - is the classic way to lose that)
+        mild = abs(n * math.log1p(float(r))) <= 50 if r > -1 else False
         if isinstance(residual, Fraction):
-            tol = scale * Fraction(1, 10 ** 9) + Fraction(1, 10 ** 12)
+            tol = scale * Fraction(1, 10 ** (12 if mild else 9)) + Fraction(1, 10 ** 15)
         else:
-            tol = scale * 1e-9 + 1e-12
+            tol = scale * (1e-12 if mild else 1e-9) + 1e-15
         if abs(residual) <= tol:
             return None
         expected = -(annuity + F) / g
